@@ -85,6 +85,8 @@ def arabic_trace(concrete):
     try:
         r1 = helper().string_to_label_form(concrete)
         r2 = helper().label_form_to_string(r1)
+        # a result cannot be longer than its input: keep the record small whatever the code returned
+        r1, r2 = r1[:len(concrete) + 4], r2[:len(concrete) + 4]
         rec["r1"], rec["r2"] = tokens_of(r1), tokens_of(r2)
         # a character that only changed inside its class (e.g. another Arabic letter) must not pass as a permutation
         if sorted(r1) != sorted(concrete) and sorted(rec["r1"]) == sorted(rec["text"]):
